@@ -156,10 +156,12 @@ def run_sequence(chk, kind, rng, idx, script=None):
             choices += ["new", "new", "decode", "decode"] + (["new_given"] if can_given else [])
         if live:
             choices += ["add", "add", "remove", "edit", "edit", "encode"] + (["assign"] if can_assign and len(live) >= 2 else [])
+            if kind == "D3":
+                choices += ["link", "link"]
         sc = script[step] if script is not None else None
         op = rng.choice(choices) if sc is None else sc[0]
         if sc is not None and ((op in ("new", "decode", "new_given") and not free) or (op == "assign" and not can_assign)
-                               or (op == "new_given" and not can_given)):
+                               or (op == "new_given" and not can_given) or (op == "link" and kind != "D3")):
             continue
         before = {h: ([id(x) for x in ad.items(b)], sha(b)) for h, b in blocks.items()}
         target, edited = None, None
@@ -224,6 +226,18 @@ def run_sequence(chk, kind, rng, idx, script=None):
                 edited = None
                 continue
             mops.append([6, h, i])
+            target = h
+        elif op == "link":
+            # marker links: an optional attribute of 3D blocks that callers fill in place when it exists
+            h = rng.choice(live) if sc is None else sc[1]
+            if h not in blocks or kind != "D3":
+                continue
+            b = blocks[h]
+            try:
+                b.links.append((0, 1))
+            except AttributeError:
+                b.links = [(0, 1)]
+            mops.append([8, h])            # not an item: Heap.v sees an encode-like no-op on the item lists
             target = h
         elif op == "assign":
             if len(live) < 2:
@@ -318,7 +332,8 @@ def compare_with_model(chk, kind, r):
                 continue
             mchanged = prev_m[h] is not None and prev_m[h] != c
             ichanged = prev_i[h] is not None and prev_i[h] != ob[h]
-            if prev_m[h] is not None and mchanged != ichanged and not r["log"][j].startswith("assign"):
+            if prev_m[h] is not None and mchanged != ichanged and not r["log"][j].startswith("assign") \
+                    and not (r["log"][j] == "link(%s)" % h):
                 return "instance %d %s in the implementation but %s in Heap.v at %s" % (
                     h, "changed" if ichanged else "did not change", "changed" if mchanged else "did not", r["log"][j])
             prev_m[h], prev_i[h] = c, ob[h]
@@ -337,7 +352,7 @@ def run(chk):
     scripts = []
     creates = [("new",), ("decode", 0), ("decode", 1), ("decode", 2), ("new_given",)]
     edits = [("add", 1), ("add", 2), ("remove", 1, 0), ("remove", 2, 1), ("edit", 1, 0), ("edit", 1, 1), ("edit", 2, 0),
-             ("edit", 2, 1), ("assign", 1, 2), ("assign", 2, 1)]
+             ("edit", 2, 1), ("assign", 1, 2), ("assign", 2, 1), ("link", 1), ("link", 2)]
     for kind in KINDS:
         for c1 in creates:
             for c2 in creates:
@@ -361,6 +376,60 @@ def run(chk):
         d = compare_with_model(chk, kind, r)
         if d:
             chk.violation("C20 %s: correspondence broken: %s" % (kind, d), dict(what, correspondence="coq/Model/Heap.v h_step"), False)
+    container_fetches(chk, rng)
+
+
+def container_fetches(chk, rng):
+    """blocks fetched twice from one open file are separate objects: editing one never shows in the other"""
+    import os
+    from basictdf import Tdf
+    from basictdf.tdfBlock import BlockType
+    from harness import container
+    work = os.path.join(chk.work, "c20files")
+    os.makedirs(work, exist_ok=True)
+    GET = {"D3": ("data3D", BlockType.data3D), "EV": ("events", BlockType.temporalEventsData), "EM": ("emg", BlockType.electromyographicData),
+           "FT": ("force_and_torque", BlockType.forceAndTorqueData), "PD": ("force_platforms_data", BlockType.forcePlatformsData)}
+    for j in range(4 if chk.tier == "quick" else 40):
+        p = os.path.join(work, "f%d.tdf" % j)
+        if os.path.exists(p):
+            os.unlink(p)
+        kinds = rng.sample(list(GET), 3)
+        with container.scripted_clock():
+            container.Clock.now = container.T0
+            Tdf.new(p)
+            ads = {k: Adapter(k, rng) for k in kinds}
+            with Tdf(p).allow_write() as f:
+                for k in kinds:
+                    b = ads[k].new()
+                    for q in range(2):
+                        ads[k].add(b, nan_track(k, "gap") if q == 1 and nan_track(k, "gap") is not None else None)
+                    f.add_block(b)
+        with Tdf(p) as f:
+            for k in kinds:
+                attr, bt = GET[k]
+                ways = [lambda: f.get_block(bt), lambda: getattr(f, attr), lambda: f[bt],
+                        lambda: next(b for b in f.blocks if getattr(b, "type", None) == bt)]
+                for w1 in range(len(ways)):
+                    w2 = (w1 + 1 + j) % len(ways)
+                    first, second = ways[w1](), ways[w2]()
+                    chk.note_case(("container fetch", k, w1, w2, j), True)
+                    chk.count("container fetch pair")
+                    if first is second:
+                        chk.violation("C20 %s: two fetches of the block from one open file return the same object" % k,
+                                      {"kind": k, "fetch": [w1, w2]}, True)
+                        return
+                    before = sha(second)
+                    ad = ads[k]
+                    items = ad.items(first)
+                    try:
+                        ad.edit(items[1] if len(items) > 1 else items[0])
+                    except ValueError:
+                        pass
+                    ad.remove(first, 0)
+                    if sha(second) != before or len(ad.items(second)) != 2:
+                        chk.violation("C20 %s: editing a block fetched from an open file changed another fetch of the same block" % k,
+                                      {"kind": k, "fetch": [w1, w2]}, True)
+                        return
 
 
 def replay(chk, path):
